@@ -17,7 +17,7 @@ FRAGS = [
     'L{', 'C{', 'I{', 'B{', 'U{', 'M{', 'X{', 'E{', 'G{', 'S{', '}', '{', 'L{a.b}', 'C{code}', 'L{text<target>}', 'U{http://x.y|}', 'E{lb}', 'E{nope}', 'S{alpha}', 'L{a b}', 'L{}',
     '@param x: ', '@type x: ', '@return: ', '@rtype: ', '@raise E: ', '@ivar v: ', '@cvar c: ', '@var v: ', '@see: ', '@note: ', '@unknown: ', '@param: ', '@type: ', '@', '@:', '@param x y: ',
     '@keyword k: ', '@author: ', '@since: ', '@todo: ', '@warning: ', '@newfield tag: Label', '@tag: custom', '@rtype: L{int} or C{None}', '@type x: list(int) of {str: bytes}, optional',
-    '- item\n', '  - nested\n', '1. one\n', '1.2. sub\n', ' 2. two\n', '>>> 1+1\n2\n', '>>> print(', 'Title\n=====\n', 'Sub\n---\n', 'Bad\n~~\n', '::\n\n    literal\n', '::', 'para::\n  lit\n',
+    '- item\n', '  - nested\n', '1. one\n', '1.2. sub\n', ' 2. two\n', '>>> 1+1\n2\n', '>>> print(', 'Title\n=====\n', 'Sub\n---\n', 'Bad\n~~\n', '概要\n==\n', 'Пример\n======\n', '概要\n==\n\ntext\n\n???\n---\n', '???\n===\n', '!!!\n~~~\n', '1.\n==\n', 'Title\n=====\n\nTitle\n=====\n', '-\n=\n', 'é\n=\n', 'a b\n===\n', ' \n=\n', '::\n\n    literal\n', '::', 'para::\n  lit\n',
     # reStructuredText
     '`', '``', '`ref`', '``lit``', '*em*', '**st**', '*', '**', '|sub|', '_', '__', 'ref_', '`text <target>`_', '`a`_', '.. _t:', '.. note:: n\n', '.. warning::\n   w\n', '.. code:: python\n\n   x = 1\n',
     '.. code-block:: py\n\n  y\n', '.. unknown:: x\n', '.. image:: x.png\n', '.. |s| replace:: t\n', '.. [1] foot\n', '[1]_', '.. math:: a^2\n', ':math:`x`', ':py:class:`C`', ':class:`~a.B`', ':func:`f()`', ':role:`x`',
@@ -92,4 +92,11 @@ def fragments(repo: str, max_frags: int = 10) -> Any:
     breakers = st.sampled_from(['\xa0', '\uffff', '\ufffe', '\x0c', '\x00', '\x1b', '\x85', '\u2028', '\ud800', '\udfff', '\udc80', '\x7f', '\x0b', '\x1c'])
     hard = st.tuples(st.lists(breakers, min_size=1, max_size=3), st.lists(frag, min_size=0, max_size=4)).flatmap(
         lambda t: st.permutations(t[0] + t[1]).map(''.join))
-    return st.one_of(concat, concat, concat, mutated(), mutated(), arbitrary, hard, hard)
+    # section headings (underlined titles) only count at the start of a block: titles that leave nothing for an identifier
+    # (no ASCII letter or digit), repeated titles, titles with markup - followed by ordinary fragments
+    titles = st.sampled_from(['概要', 'Пример', '???', '!!!', '1.', '-', 'é', 'Title', 'Title', 'a b', 'L{x}', '`r`', 'x' * 70, '&<>', 'T\xa0t', ':'])
+    under = st.sampled_from(['=', '-', '~'])
+    heading = st.tuples(titles, under).map(lambda t: '%s\n%s\n' % (t[0], t[1] * len(t[0])))
+    sectioned = st.tuples(st.lists(st.tuples(heading, concat), min_size=1, max_size=3), st.booleans()).map(
+        lambda t: ('intro\n\n' if t[1] else '') + '\n\n'.join(h + '\n' + body for h, body in t[0]))
+    return st.one_of(concat, concat, concat, mutated(), mutated(), arbitrary, hard, hard, sectioned)
